@@ -34,7 +34,7 @@ var c03funcs = []c03fn{
 	{"vm", "suspend", "vmSuspend"}, {"vm", "resume", "vmResume"},
 	{"generatorObject", "init", "genObjInit"}, {"generatorObject", "next", "genObjNext"},
 	{"generatorObject", "throw", "genObjThrow"}, {"generatorObject", "_return", "genObjReturn"},
-	// async functions (asyncNew / asyncResume); vm.curAsyncRunner itself is outside the model, the Idle vector checks it
+	// async functions (asyncNew / asyncResume); vm.curAsyncRunner is Vm.curAsync (asyncResumeCA), also in the Idle vector
 	{"asyncRunner", "onFulfilled", "asyncOnFulfilled"}, {"asyncRunner", "onRejected", "asyncOnRejected"},
 	{"asyncRunner", "start", "asyncStart"}, {"asyncRunner", "step", "asyncStep"},
 }
